@@ -191,3 +191,13 @@ Example C05_container_dump_example :
   dump_of (fun k => sm_load [(3, o 7); (1, o 5)] k) [1; 2; 3] = [(1, MkD 77 5 1 9); (3, MkD 77 7 1 9)] /\
   c_dirty [(3, true); (1, false); (2, true)] = [3; 2].
 Proof. vm_compute. repeat split; reflexivity. Qed.
+
+(* acknowledgements of different vBuckets store into the containers from different goroutines: stores of pairwise distinct
+   keys represent the same function whatever order they take effect in (the correspondence issues such batches from
+   goroutines released together and evaluates the model in list order) *)
+From Coq Require Import Permutation.
+Theorem C05_container_stores_commute : forall (kvs kvs' m : smap) k,
+  NoDup (map fst kvs) -> Permutation kvs kvs' ->
+  sm_load (sm_stores kvs m) k = sm_load (sm_stores kvs' m) k.
+Proof. exact (fun kvs kvs' m k => stores_commute kvs kvs' m k). Qed.
+Print Assumptions C05_container_stores_commute.
